@@ -116,8 +116,11 @@ TEXTS = {
                 "C07_parent_section, C07_record_section). WHOLE FILE (C07_decode_encode_is_rebuild): from_bytes(as_bytes o), for any order in "
                 "which the HashMaps emit the records, IS the Builder pipeline (insert raw terms, add parent links, connect_all_terms, load and "
                 "propagate every record, calculate_information_content, build_with_defaults) run on the raw facts o carries — the file layer "
-                "is transparent. PARTIAL: that this rebuilt ontology is observationally equal to o is composed from the C01/C02/C03/C16 "
-                "theorems (closure and propagation depend on the facts only) but not yet stated as one theorem; it is decided per generated "
+                "is transparent. TERM STRUCTURE (C07_reload_keeps_terms): for every ontology with exact caches and children = parents^-1 "
+                "that the format can carry — every Builder-built one is such (C07_builder_ontologies_are_sources) — the reload returns every "
+                "term at the same position with the same id, name (cut at the limit), obsolete flag, replacement, direct parents, children and "
+                "ancestor cache. PARTIAL: that the propagated annotation sets, the records and the information content come back equal is "
+                "not yet one theorem (both sides are the propagation of the same direct facts: C02/C03); it is decided per generated "
                 "ontology by running the encode/decode transcription against as_bytes/from_bytes (bytes compared record-sorted, reload dumped "
                 "through the whole read API, Ontology::compare consulted) and by spec_C07 evaluated on the crate's observation.",
         "design_ref": "DESIGN.md §4 C07, §9", "note": NOTE_COMMON + "String::from_utf8 / is_char_boundary modelled by byte-level predicates.", "technique": TECH,
